@@ -353,6 +353,7 @@ func checkFlow(p flowParams, x *verifkit.Exec) []verifkit.Violation {
 	}
 	x.Obs["statuses"] = statuses
 	a.checkRecovery(x)
+	a.checkControl(x)
 	return a.out
 }
 
@@ -547,3 +548,90 @@ func forceless(evs []verifkit.Event) bool {
 func sts2names[T any](s []T) []T { return s }
 
 func statusNames(v any) string { return fmt.Sprintf("%v", v) }
+
+
+// checkControl is the C11 oracle: start/stop/wait act on the one live run and report its true result.
+func (a *analysis) checkControl(x *verifkit.Exec) {
+	open := map[string]int{} // connector -> currently open instances
+	status := ""
+	calls := map[int]verifkit.Event{}
+	for _, e := range a.evs {
+		switch {
+		case (isSource(e.Comp) || isDest(e.Comp) || e.Comp == "dlq") && e.Kind == "open":
+			open[e.Comp]++
+			if open[e.Comp] > 1 {
+				a.bad("C11/two-runs-at-once", "connector %s was opened while an earlier instance of it was still open: two runs of the pipeline exist at once (event #%d)", e.Comp, e.Seq)
+			}
+		case (isSource(e.Comp) || isDest(e.Comp) || e.Comp == "dlq") && e.Kind == "teardown":
+			if open[e.Comp] > 0 {
+				open[e.Comp]--
+			}
+		case e.Comp == "db" && e.Kind == "put" && strings.HasPrefix(e.Arg, "pipeline:instance:"):
+			parts := strings.SplitN(e.Arg, "|", 2)
+			if len(parts) == 2 {
+				_, st, _ := stack.ParseDescribe(parts[1])
+				if st != "" {
+					status = st
+				}
+			}
+		case e.Comp == "ctl" && e.Kind == "call":
+			calls[e.Seq] = e
+		case e.Comp == "ctl" && strings.HasPrefix(e.Kind, "hist."):
+			op := strings.TrimSuffix(strings.TrimPrefix(e.Kind, "hist."), ".ret")
+			res := strings.SplitN(e.Arg, "|status=", 2)
+			memStatus := ""
+			if len(res) == 2 {
+				memStatus = res[1]
+			}
+			liveRun := false
+			for _, n := range open {
+				if n > 0 {
+					liveRun = true
+				}
+			}
+			switch op {
+			case "stop", "stopwait", "force":
+				if res[0] != "nil" && strings.Contains(res[0], "not running") && liveRun && (memStatus == "Running") {
+					a.bad("C11/stop-misses-live-run", "%s was refused (%s) although the pipeline is reported Running and its connectors are open: the call did not find the live run (event #%d)", op, res[0], e.Seq)
+				}
+				if op == "stopwait" && res[0] == "nil" && liveRun && a.healthy {
+					a.bad("C11/stop-acted-on-another-run", "stop-and-wait returned nil but connectors of a run are still open (event #%d): it acted on an earlier run", e.Seq)
+				}
+			case "wait":
+				if res[0] == "nil" && liveRun && memStatus == "Running" && a.healthy {
+					a.bad("C11/wait-returned-for-another-run", "WaitPipeline returned nil while the pipeline is Running with open connectors (event #%d): it waited for an earlier run", e.Seq)
+				}
+			case "start":
+				if res[0] != "nil" && !liveRun && memStatus != "Running" && memStatus != "Recovering" && a.healthy && !strings.Contains(res[0], "verif:") {
+					a.bad("C11/start-refused-after-run-ended", "Start failed (%s) although no run is live (status %s): the previous run was not fully released (event #%d)", res[0], memStatus, e.Seq)
+				}
+			}
+		}
+	}
+	if len(a.p.Ctl) == 0 {
+		return
+	}
+	// no wedge: every control call returned (all plugins and the store answered everything that was asked of them)
+	if !x.StepCapHit && len(x.W.Pending()) == 0 {
+		for _, c := range x.Controls {
+			if c.Issued() && !c.Returned() {
+				a.bad("C11/control-call-never-returns", "control call %s never returned although every plugin and store request was answered (wedged)", c.Name)
+			}
+		}
+	}
+	// the stored status agrees with how the last run ended
+	liveRun := false
+	for _, n := range open {
+		if n > 0 {
+			liveRun = true
+		}
+	}
+	if !x.StepCapHit && len(x.W.Pending()) == 0 {
+		if status == "Running" && !liveRun {
+			a.bad("C11/status-running-without-run", "the stored status is Running but no connector of the pipeline is open: the status does not agree with how the last run ended")
+		}
+		if liveRun && status != "Running" && status != "Recovering" && status != "" {
+			a.bad("C11/run-alive-but-status-stopped", "connectors of a run are still open while the stored status is %s", status)
+		}
+	}
+}
